@@ -136,18 +136,15 @@ Qed.
 
 Lemma vext_temp g : rounds_extendable (length (U (temp_cpdag g))) (temp_cpdag g) -> vext (temp_cpdag g).
 Proof.
-  generalize (temp_simple g). generalize (temp_cpdag g). intros t Hs Hr.
+  intros Hr.
+  assert (N : forall a b, has_d (temp_cpdag g) a b = false) by reflexivity.
+  set (t := temp_cpdag g) in *.
   destruct (U t) as [|[u v] r] eqn:E.
   - exists t. split.
     + unfold consistent_ext. split; [exact E|]. split.
-      * intros x P. assert (N : forall a b, has_d t a b = false).
-        { intros a b. destruct (has_d t a b) eqn:X; [|reflexivity]. exfalso. clear P.
-          (* a directed edge in a graph without undirected edges that is all-undirected initially: use the hypothesis *)
-          exact (rounds_no_d t E a b X). }
-        inversion P as [a b H|a b c H _]; rewrite N in H; discriminate H.
+      * intros x P. inversion P as [a b H|a b c H _]; rewrite N in H; discriminate H.
       * split; [split; apply incl_refl|]. split; [reflexivity|]. split; [apply incl_refl|tauto].
-    + intros a c b. unfold vstructb. destruct (has_d t a c) eqn:X; [|reflexivity].
-      exfalso. exact (rounds_no_d t E a c X).
-  - simpl in Hr. rewrite E in Hr. destruct Hr as [Hx _].
-    apply (vext_of_orient _ u v (head_has_u _ u v r E) Hx).
+    + intros a c b. unfold vstructb. rewrite N. reflexivity.
+  - change (rounds_extendable (S (length r)) t) in Hr. cbn [rounds_extendable] in Hr. rewrite E in Hr.
+    destruct Hr as [Hx _]. apply (vext_of_orient _ u v (head_has_u _ u v r E) Hx).
 Qed.
